@@ -112,6 +112,10 @@ def check_run(ctx, kind, N, G, p, model_answer):
     return None
 
 
+class ScriptDry(Exception):
+    """the scripted variation operators have no more children to hand out"""
+
+
 def scripted_generate(ctx, rng, N, pairs):
     """Run the real GeneticAlgorithm.generate with scripted variation; returns offspring vectors."""
     from artap.algorithm_NSGAII import NSGAII
@@ -127,7 +131,10 @@ def scripted_generate(ctx, rng, N, pairs):
 
     class Cross:
         def cross(self, v1, v2):
-            c1, c2 = next(it)
+            try:
+                c1, c2 = next(it)
+            except StopIteration:
+                raise ScriptDry()          # (a StopIteration would turn into RuntimeError inside a generator-based generate)
             return list(c1), list(c2)
 
     class Mut:
@@ -137,7 +144,7 @@ def scripted_generate(ctx, rng, N, pairs):
     parents = [Individual([0.0] * len(pairs[0][0])) for _ in range(2)]
     try:
         offs = a.generate(parents)
-    except StopIteration:
+    except ScriptDry:
         return "dry"
     return [list(o.vector) for o in offs]
 
